@@ -76,13 +76,13 @@ var ctRoots = []string{
 // optional roots: translated when possible; a construct outside the subset is reported, not fatal
 var ctOptional = map[string]bool{"sm2.DerivePublic": true, "sm2.GenerateKey": true, "sm2.SignHashed": true}
 
-// declassTable: the verdict sites of the property statement (function, condition text).
+// declassTable: the verdict sites of the property statement (function, condition text): the callers'
+// two-way tests on the results of ConstantTimeCmp / IsZero / Sign, never the comparison itself.
 var declassTable = []struct{ fn, cond, why string }{
-	{"utils.ConstantTimeCmp", "borrow == 0", "verdict of ConstantTimeCmp (a >= b)"},
-	{"utils.ConstantTimeCmp", "diff != 0", "verdict of ConstantTimeCmp (a != b)"},
 	{"sm2.TestPrivateKey", "acc == 0", "range test of a private key (zero key)"},
 	{"sm2.TestPrivateKey", "cmp == -1", "range test of a private key (priv < n-1)"},
 	{"fiat.SM2Element.SetBytes", "utils.ConstantTimeCmp(v, sm2MinusOneEncoding, SM2ElementLen) > 0", "range test of a field element encoding"},
+	{"fiat.SM2ScalarElement.SetBytes", "utils.ConstantTimeCmp(v, sm2ScalarMinusOneEncoding, SM2ScalarElementLen) > 0", "range test of a scalar encoding"},
 	{"internal.SM2Point.bytes", "p.z.IsZero() == 1", "is the point at infinity"},
 	{"internal.SM2Point.GetAffineX", "p.z.IsZero() == 1", "is the point at infinity"},
 	{"internal.SM2Point.GetAffineX_Unsafe", "p.z.IsZero() == 1", "is the point at infinity"},
@@ -101,10 +101,10 @@ var ctSpecialize = map[string]string{"internal.SM2Point.bytes": "safe"}
 
 // label overrides: parameters whose Go type (int) would make them public but that carry secrets
 var labelOverride = map[string]string{
-	"fiat.SM2Element.Select/cond":             "H",
-	"fiat.SM2ScalarElement.Select/cond":       "H",
+	"fiat.SM2Element.Select/cond":              "H",
+	"fiat.SM2ScalarElement.Select/cond":        "H",
 	"fiat.SM2Element.MultiSelect/fallbackCond": "H",
-	"internal.SM2Point.Select/cond":           "H",
+	"internal.SM2Point.Select/cond":            "H",
 }
 
 type extSpec struct {
@@ -261,21 +261,21 @@ type ctSite struct {
 }
 
 type ctTr struct {
-	fset    *token.FileSet
-	pkgs    map[string]*ctPkg
-	fns     map[string]*ctFn
-	byObj   map[*types.Func]*ctFn
-	order   []*ctFn
-	globals []string // keys, in definition order
-	globIdx map[string]int
-	globInit map[string]*ctFn
-	exts    []string
-	extIdx  map[string]int
-	sites   []ctSite
+	fset        *token.FileSet
+	pkgs        map[string]*ctPkg
+	fns         map[string]*ctFn
+	byObj       map[*types.Func]*ctFn
+	order       []*ctFn
+	globals     []string // keys, in definition order
+	globIdx     map[string]int
+	globInit    map[string]*ctFn
+	exts        []string
+	extIdx      map[string]int
+	sites       []ctSite
 	usedDeclass map[int]bool
-	variants map[*ctFn]map[bool]*ctFn
-	soft    bool   // translating an optional root: errors are recorded, not fatal
-	softErr string
+	variants    map[*ctFn]map[bool]*ctFn
+	soft        bool // translating an optional root: errors are recorded, not fatal
+	softErr     string
 }
 
 type ctAbort struct{ msg string }
